@@ -1,5 +1,5 @@
 /- C19, KLL sketch part 2: constructor, destructor. -/
-import DSProofs.Lemmas.LifeKllA
+import DSProofs.Lemmas.LifeKllW
 namespace DS.Life.Kll
 open DS.Life
 
@@ -25,7 +25,8 @@ theorem ctor_contract (P : Params) (hP : P.OK) (n0 k : Nat) (ids0 : List Nat) :
     have hne : h.next ≠ h1.next := by omega
     have ss := so2 h.next hne
     have hmk : P.defaultM ≤ k := by have := hP.2; omega
-    refine ⟨⟨⟨rfl, ss.cells _ hc1, by simp only; omega, ?_, ?_⟩, ⟨h1.next, rfl, ?_⟩, ?_, ?_, ?_⟩, ?_, ?_⟩
+    refine ⟨⟨⟨rfl, ss.cells _ hc1, by simp only; omega, ?_, ?_⟩, ⟨h1.next, rfl, ?_⟩, ?_, ?_, ?_,
+      by simp [sumSampleWeights, List.range_succ], Or.inl rfl⟩, ?_, ?_⟩
     · intro v hv; cases hv
     · intro b hb
       simp only [Option.some.injEq] at hb
